@@ -71,3 +71,11 @@ Theorem C09_sideslip_wake_differs :
   forall a b, to_wind a b (mk3 (cos a) 0 (sin a)) 0%nat = cos b /\ to_wind a b (mk3 (cos a) 0 (sin a)) 1%nat = sin b.
 Proof. exact Tw_wake_with_sideslip. Qed.
 Print Assumptions C09_sideslip_wake_differs.
+
+(* translator tie: the data-flow graph (which output feeds which input) of canonical models of the public groups, regenerated
+   from the live models on every run, is the reviewed one; a changed or dropped promotion / connection breaks this obligation *)
+From Coq Require Import List String.
+From OAS Require Import Wiring WiringReviewed WiringProofs.
+Theorem C09_group_wiring_is_the_reviewed_one : gen_wiring = reviewed_wiring.
+Proof. exact wiring_reviewed. Qed.
+Print Assumptions C09_group_wiring_is_the_reviewed_one.
